@@ -36,6 +36,9 @@ DEFAULT = {
     "pad_states": 0,           # number of extra discrete states x0, x1, ... with one (sometimes two) labels and identity transitions:
                                # models with many variables (17+) at the cost of few cells
     "p_int_arith": 0.3,        # a payoff term built by INTEGER arithmetic on the restricted variables that goes negative: c * (a - r - 1)
+    "p_alias": 0.25,           # the function object of `inc` is registered a second time as `inc2` with other parameter values
+    "p_unnormalised": 0.0,     # transition rows scaled by a common factor < 1 (weights that fold in a survival probability)
+    "p_next_reads_draw": 0.0,   # (not used by any check: lcm.solve itself mis-handles this class, see DESIGN 11.5) next_w reads the realised next value of the stochastic state h: next_w(..., next_h)
     "p_near_tie": 0.15,        # large utility level + tiny dyadic premia on the discrete choices: near-ties (relative 1e-5)
     "p_dead_label": 0.0,       # (models without continuous state) the last label of h admits no choice: value -inf, reachable
     "p_state_only_filter": 0.15,  # the filter restricts states only: no restricted choice, every discrete choice unrestricted
@@ -389,6 +392,15 @@ def _rand_model_once(rng, P):  # noqa: C901, PLR0912, PLR0915
         params["inc"] = {"k": q(rng.choice([1, 2]))}
         feat["F11"] = True
         feat["F12"] = params["inc"]["k"] != params["utility"].get("k")
+        if has("p_alias"):
+            f2 = mkfunc("inc2", "aux", list(funcs[-1]["args"]), iexpr)
+            f2["alias_of"] = "inc"
+            funcs.append(f2)
+            params["inc2"] = {"k": q(rng.choice([F(1, 2), 3]))}
+            u = next(f for f in funcs if f["kind"] == "utility")
+            u["expr"] = add(u["expr"], var("inc2"))
+            u["args"].insert(rng.randrange(len(u["args"]) + 1), "inc2")
+            feat["aliased_function"] = True
 
     # ------------------------------------------------------------------ transitions
     if has_w:
@@ -412,6 +424,10 @@ def _rand_model_once(rng, P):  # noqa: C901, PLR0912, PLR0915
             feat["F2lo"] = True
         else:
             params["next_w"] = {}
+        if h_stoch and has("p_next_reads_draw"):
+            nargs.append("next_h")
+            e = add(e, mul(const(F(1, 2)), var("next_h")))
+            feat["next_reads_draw"] = True
         if log_w:
             e = ["max", const(log_lo), ["min", const(log_hi), add(e, const(1))]]
             feat["F4"] = True
@@ -444,7 +460,7 @@ def _rand_model_once(rng, P):  # noqa: C901, PLR0912, PLR0915
                 funcs.append(mkfunc("lb_constraint", "constraint", _shuf(rng, ["c", "kmin"], P), ["le", var("kmin"), var("c")]))
                 params["lb_constraint"] = {"kmin": q(rng.choice([F(1, 2), F(3, 2)]))}
                 feat["lower_bound"] = True
-            if has("p_next_in_constraint") and not P["inexact"] and not log_w:
+            if has("p_next_in_constraint") and not P["inexact"] and not log_w and not feat.get("next_reads_draw"):
                 # a model function may take the output of a transition function as an argument (a borrowing limit on next
                 # period's wealth): next_w is then a function argument, not a parameter
                 funcs.append(mkfunc("nw_constraint", "constraint", _shuf(rng, ["next_w", "kn"], P), ["le", var("kn"), var("next_w")]))
@@ -512,6 +528,13 @@ def _rand_model_once(rng, P):  # noqa: C901, PLR0912, PLR0915
             funcs.append(mkfunc(f"next_{v['name']}", "next", [v["name"]], var(v["name"])))
     for f in funcs:
         params.setdefault(f["name"], {})
+    if params.get("shocks") and has("p_unnormalised"):
+        fac = rng.choice([F(1, 2), F(3, 4)])
+
+        def scale(x):
+            return q(F(x[0], x[1]) * fac) if (len(x) == 2 and all(isinstance(i, int) and not isinstance(i, bool) for i in x)) else [scale(y) for y in x]
+        params["shocks"] = {k: scale(v) for k, v in params["shocks"].items()}
+        feat["unnormalised_rows"] = True
     if P["shuffle"]:
         rng.shuffle(vars_)
         rng.shuffle(funcs)
